@@ -12,9 +12,9 @@ type c16Plant struct {
 	Target string `json:"target,omitempty"`
 }
 
-func c16ExecSandbox(c *c16Case) c16Obs                       { return c16Obs{} }
+func c16ExecSandbox(c *c16Case) c16Obs                        { return c16Obs{} }
 func c16OracleSandbox(c *c16Case, obs *c16Obs) []hx.Violation { return nil }
-func c16CoqSandbox(c *c16Case, obs *c16Obs) string           { return "COracleOnly" }
-func c16GenSandbox(r *rand.Rand) c16Case                     { return c16GenJoin(r) }
-func c16CorpusSandbox() []any                                { return nil }
-func c16Exhaustive(tier string) []any                        { return nil }
+func c16CoqSandbox(c *c16Case, obs *c16Obs) string            { return "COracleOnly" }
+func c16GenSandbox(r *rand.Rand) c16Case                      { return c16GenJoin(r) }
+func c16CorpusSandbox() []any                                 { return nil }
+func c16Exhaustive(tier string) []any                         { return nil }
